@@ -149,7 +149,7 @@ impl Model {
 	/// Is `op` admissible on column `c` (by the column's configuration alone)?
 	fn static_check(&self, c: u8, op: &Op) -> Result<(), String> {
 		let spec = self.specs.get(c as usize).ok_or_else(|| "no such column".to_string())?;
-		match (spec.multitree, op) {
+		match (spec.is_tree(), op) {
 			(true, Op::Set(..) | Op::Del(..) | Op::Ref(..)) =>
 				Err("key-value operation on a multitree column".into()),
 			(true, Op::DerefTree(..)) if spec.append_only =>
